@@ -9,17 +9,35 @@ From Coq Require Import Lia.
 
 (* a deep copy shares nothing with the original: the original objects are untouched, the copy of the root is a new object, every memoised copy is
    new, and every reference held by a new object - strong (units, profiles, rolls, sub-unit lists) or weak (parent, owner, unit, roll pass
-   back-references) - points to a new object; for every heap, every root, every recursion budget *)
+   back-references) - points to a new object; a weak reference whose target is gone (Dead) has no target to speak of; for every heap, every root,
+   every recursion budget *)
 Theorem C12_deepcopy_shares_nothing : forall fuel h0 root h' m r, deepcopy fuel h0 root = Some ((h', m), r) ->
   firstn (length h0) h' = h0 /\
   length h0 <= r < length h' /\
   (forall x y, In (x, y) m -> length h0 <= y < length h') /\
-  (forall i o, length h0 <= i -> nth_error h' i = Some o -> forall k t, In (k, t) (fields o) -> length h0 <= t < length h').
+  (forall i o, length h0 <= i -> nth_error h' i = Some o -> forall k t, In (k, t) (fields o) -> k <> Dead -> length h0 <= t < length h').
 Proof.
   intros fuel h0 root h' m r E. unfold deepcopy in E.
-  destruct (dcopy_good h0 fuel (h0, []) root (h', m) r (Inv_init h0) E) as [I [R _]]. cbn [fst snd] in *.
+  destruct (dcopy_good h0 true fuel (h0, []) root (h', m) r (Inv_init h0) E) as [I [R _]]. cbn [fst snd] in *.
   split; [apply (inv_orig _ _ I)|]. split; [exact R|]. split; [apply (inv_memo _ _ I) | apply (inv_closed _ _ I)].
 Qed.
+
+(* the copy of the root has the same fields in the same order with the same kinds: strong stays strong, weak stays weak, and a back-reference whose
+   target is gone stays dead (and nothing else becomes dead) *)
+Theorem C12_copy_keeps_reference_kinds : forall fuel h0 root h' m r, deepcopy fuel h0 root = Some ((h', m), r) ->
+  exists o o', nth_error h0 root = Some o /\ nth_error h' r = Some o' /\ map fst (fields o') = map fst (fields o) /\ early o' = early o.
+Proof. exact root_copy_keeps_kinds. Qed.
+Print Assumptions C12_copy_keeps_reference_kinds.
+
+(* pinned behaviour before the repair 343b99d: one dead back-reference makes the whole deep copy fail (weakref.ref(None)); the repaired copy of the
+   same heap succeeds, shares nothing and keeps the reference dead *)
+Theorem C12_dead_reference_pinned_refuted :
+  deepcopy_pinned 10 orphan_heap 0 = None /\
+  exists h' m, deepcopy 10 orphan_heap 0 = Some ((h', m), 2) /\
+               nth_error h' 2 = Some {| early := true; fields := [(Dead, 0); (Strong, 3)] |} /\
+               nth_error h' 3 = Some {| early := true; fields := [(Weak, 2)] |}.
+Proof. exact dead_reference_pinned_fails. Qed.
+Print Assumptions C12_dead_reference_pinned_refuted.
 
 (* every value-producing function keeps the mutation discipline: what it changes in place it has created itself ... *)
 Theorem C12_all_implementations_disciplined : forallb (fun p => discipline (snd p)) mutation_programs = true.
